@@ -106,25 +106,35 @@ Theorem C19_scope_order : forall st g s ti c ctx,
 Proof. exact scope_order. Qed.
 Print Assumptions C19_scope_order.
 
-(* what data generation applies: true for the five parameter containers ... *)
-Theorem C19_generation_hooks_partial : forall scopes closures ops g s t c o k f,
-  is_case_target c = false ->
+(* what data generation applies, for ALL six targets (path_parameters, query, headers, cookies, body and case):
+   exactly the hooks registered under that name on a dispatcher in scope whose own filters select the operation *)
+Theorem C19_generation_hooks : forall scopes closures ops g s t c o k f,
   let st := fst (run scopes closures ops) in
-  In (k, f) (generation_hooks st g s t c (Some o)) <->
+  In (k, f) (generation_hooks st g s t c o) <->
   exists di, in_scope g s t di /\ In f (all_by_name st di (NGen k c)) /\
              match own_chain (spec_run closures ops) f with Some fs => fset_match fs o = true | None => True end.
-Proof. exact generation_hooks_partial. Qed.
-Print Assumptions C19_generation_hooks_partial.
+Proof. exact generation_hooks_full. Qed.
+Print Assumptions C19_generation_hooks.
 
-(* F2: ... and false for the case level: as_strategy applies case hooks without looking at their filters *)
-Theorem C19_case_hooks_respect_filters_refuted : exists scopes closures ops g s t o k f fs,
+(* the case level on its own (APIOperation.as_strategy._apply_hooks) *)
+Theorem C19_case_hooks_respect_filters : forall scopes closures ops g s t o k f,
+  let st := fst (run scopes closures ops) in
+  In (k, f) (as_strategy_case_hooks st g s t o) <->
+  exists di, in_scope g s t di /\ In f (all_by_name st di (NGen k TCase)) /\
+             match own_chain (spec_run closures ops) f with Some fs => fset_match fs o = true | None => True end.
+Proof. exact case_hooks_respect_filters. Qed.
+Print Assumptions C19_case_hooks_respect_filters.
+
+(* F2, fixed by 4324b099: the behaviour before (as_strategy applied case hooks without looking at their filters),
+   kept so that its return is recognised *)
+Theorem C19_case_hooks_prefix_behaviour_refuted : exists scopes closures ops g s t o k f fs,
   own_chain (spec_run closures ops) f = Some fs /\ fset_match fs o = false /\
-  In (k, f) (generation_hooks (fst (run scopes closures ops)) g s t TCase (Some o)).
+  In (k, f) (generation_hooks_prefix (fst (run scopes closures ops)) g s t TCase o).
 Proof.
   exists [Global; Schema], [0; 1], [OFilter 0 true (call_method sGET); ORegFn 0 f_map_case], 0, 1, None, op_post, KMap, 6%N, fs_get.
-  exact case_hooks_respect_filters_refuted.
+  exact case_hooks_prefix_behaviour_refuted.
 Qed.
-Print Assumptions C19_case_hooks_respect_filters_refuted.
+Print Assumptions C19_case_hooks_prefix_behaviour_refuted.
 
 (* unregister removes exactly that function from every name of that dispatcher and touches nothing else *)
 Theorem C19_unregister_exact : forall fixed st di f st',
